@@ -307,6 +307,8 @@ def feasible(name, params, D):
   nc = params.get("n_components")
   if nc is not None and not (1 <= nc <= d):
     return False
+  if params.get("init") == "lda" and (d if nc is None else nc) > min(d, D.classes - 1):
+    return False        # 'lda' init is documented for n_components <= n_classes - 1 only
   if name == "RCA_Supervised":
     cs, nch = params["chunk_size"], params["n_chunks"]
     counts = np.bincount(D.y, minlength=D.classes)
